@@ -41,7 +41,7 @@ def _shrink(mod, case, key, tier):
     if not hasattr(mod, "shrink_candidates"):
         return case
     cur = case
-    for _ in range(8):
+    for _ in range(4 if tier == "quick" else 10):
         cands = list(mod.shrink_candidates(cur))[:48]
         if not cands:
             break
